@@ -116,3 +116,43 @@ package lua
 //@ logged
 //@ ensures  Disc(ls) && HostKept(ls)
 //@ modifies everything
+
+// ---------------------------------------------------------------------------
+// arithmetic events (manual §2.8, "add" event and friends):
+//   local o1, o2 = tonumber(op1), tonumber(op2)
+//   if o1 and o2 then return o1 + o2              -- numbers and strings convertible to numbers: NO handler is consulted
+//   else local h = getbinhandler(op1, op2, "__add"); if h then return (h(op1, op2)) else error(...) end end
+// ---------------------------------------------------------------------------
+//@ define arithNum(v LValue) bool = isNum(v) || (isStr(v) && pnOK(str(v)))
+//@ define arithVal(v LValue) float64 = ite(isNum(v), num(v), pnVal(str(v)))
+//@ define arithEvent(opcode int) string = ite(opcode == OP_ADD, "__add", ite(opcode == OP_SUB, "__sub", ite(opcode == OP_MUL, "__mul", ite(opcode == OP_DIV, "__div", ite(opcode == OP_MOD, "__mod", "__pow")))))
+//@ define arithHandler(L *LState, opcode int, lhs LValue, rhs LValue) LValue = ite(mtEvent(L, lhs, arithEvent(opcode)) != LNil, mtEvent(L, lhs, arithEvent(opcode)), mtEvent(L, rhs, arithEvent(opcode)))
+
+//@ func objectArith [C01 C04]
+//@ logged
+//@ requires Inv_gfn(L) && MetaOK(L) && valOK(lhs) && valOK(rhs) && (opcode == OP_ADD || opcode == OP_SUB || opcode == OP_MUL || opcode == OP_DIV || opcode == OP_MOD || opcode == OP_POW)
+//@ ensures  "discipline": Disc(L) && result != nil && Inv_reg(L.reg) && top(L) == old(top(L)) && (forall k int :: base(L) <= k && k < old(top(L)) ==> L.reg.array[k] == old(L.reg.array[k]))
+//@ ensures  "numeric-operands-never-reach-a-handler": arithNum(lhs) && arithNum(rhs) ==> ncalls() == old(ncalls()) && result == mkNum(numberArith(L, opcode, arithVal(lhs), arithVal(rhs)))
+//@ ensures  "handler-left-then-right": !(arithNum(lhs) && arithNum(rhs)) ==> isFn(old(arithHandler(L, opcode, lhs, rhs))) && ncalls() == old(ncalls()) + 1 && callargLV(old(ncalls()), 10) == old(arithHandler(L, opcode, lhs, rhs)) && callargLV(old(ncalls()), 11) == lhs && callargLV(old(ncalls()), 12) == rhs && callargInt(old(ncalls()), 1) == 2 && callargInt(old(ncalls()), 2) == 1 && result == callresLV(old(ncalls()), 10)
+//@ raises when !(arithNum(lhs) && arithNum(rhs))
+//@ modifies everything
+
+// OP_ADD .. OP_POW (one handler, opArith): R(A) := RK(B) op RK(C). Two numbers are operated on directly (numberArith);
+// every other pair goes to objectArith with exactly (opcode, RK(B), RK(C)) in that order, and its result is stored.
+//@ func opArith [C01 C04 C07]
+//@ requires Frame(L) && L.reg.alloc != nil && offs(L) && opA(inst) < nreg(L) && rkOK(L, opB(inst)) && rkOK(L, opC(inst)) && IdxOK(L) && Inv_gfn(L) && regsValid(L) && lb(L) + nreg(L) <= top(L) && (forall k int :: 0 <= k && k < len(konst(L)) ==> valOK(konst(L)[k]))
+//@ requires opOp(inst) == OP_ADD || opOp(inst) == OP_SUB || opOp(inst) == OP_MUL || opOp(inst) == OP_DIV || opOp(inst) == OP_MOD || opOp(inst) == OP_POW
+//@ ensures  "two-numbers": old(isNum(RKv(L, opB(inst))) && isNum(RKv(L, opC(inst)))) ==> result == 0 && ncalls() == old(ncalls()) && R(L, opA(inst)) == old(mkNum(numberArith(L, opOp(inst), num(RKv(L, opB(inst))), num(RKv(L, opC(inst)))))) && keptExcept(L, lb(L) + opA(inst), lb(L) + opA(inst) + 1) && Frame(L) && pc(L) == old(pc(L))
+//@ ensures  "otherwise-objectArith": !old(isNum(RKv(L, opB(inst))) && isNum(RKv(L, opC(inst)))) ==> result == 0 && ncalls() == old(ncalls()) + 1 && callfn(old(ncalls())) == fnid("objectArith") && callargInt(old(ncalls()), 1) == opOp(inst) && callargLV(old(ncalls()), 2) == old(RKv(L, opB(inst))) && callargLV(old(ncalls()), 3) == old(RKv(L, opC(inst))) && R(L, opA(inst)) == callresLV(old(ncalls()), 0)
+//@ modifies everything
+
+// OP_UNM: R(A) := -RK(B). A number, or a string convertible to a number, is negated directly; otherwise the __unm
+// handler of the operand is called once with the operand and its first result stored; without a handler it is an error.
+//@ func jumpTable[OP_UNM] [C01 C04 C07]
+//@ requires Frame(L) && offs(L) && opA(inst) < nreg(L) && rkOK(L, opB(inst)) && IdxOK(L) && Inv_gfn(L) && regsValid(L) && lb(L) + nreg(L) <= top(L) && (forall k int :: 0 <= k && k < len(konst(L)) ==> valOK(konst(L)[k]))
+//@ ensures  "numeric-operand-never-reaches-a-handler": old(arithNum(RKv(L, opB(inst)))) ==> result == 0 && ncalls() == old(ncalls()) && R(L, opA(inst)) == old(mkNum(-arithVal(RKv(L, opB(inst))))) && keptExcept(L, lb(L) + opA(inst), lb(L) + opA(inst) + 1) && Frame(L) && pc(L) == old(pc(L))
+//@ ensures  "handler-selected": !old(arithNum(RKv(L, opB(inst)))) ==> result == 0 && isFn(old(mtEvent(L, RKv(L, opB(inst)), "__unm"))) && ncalls() == old(ncalls()) + 1 && callfn(old(ncalls())) == fnid("(*LState).Call")
+//@ ensures  "handler-operands": !old(arithNum(RKv(L, opB(inst)))) ==> callargLV(old(ncalls()), 10) == old(mtEvent(L, RKv(L, opB(inst)), "__unm")) && callargLV(old(ncalls()), 11) == old(RKv(L, opB(inst))) && callargInt(old(ncalls()), 1) == 1 && callargInt(old(ncalls()), 2) == 1
+//@ ensures  "handler-result": !old(arithNum(RKv(L, opB(inst)))) ==> R(L, opA(inst)) == callresLV(old(ncalls()), 10)
+//@ raises when !arithNum(RKv(L, opB(inst)))
+//@ modifies everything
